@@ -10,6 +10,7 @@ import (
 	"net"
 	"net/url"
 	"os"
+	"runtime"
 	"strings"
 	"sync"
 	"sync/atomic"
@@ -464,7 +465,7 @@ func genBody(r *rand.Rand) ([]byte, string) {
 		}
 		return b, "mutated"
 	case 10:
-		return []byte(fmt.Sprintf("d8:intervali1800e5:peers%d:", []int64{1 << 40, 1<<63 - 1, 6000000}[r.Intn(3)])), "huge-declared-string"
+		return []byte(fmt.Sprintf("d8:intervali1800e5:peers%d:", []int64{1 << 40, 1<<63 - 1, 6000000, 2000000000, 2147483647, 1878345312}[r.Intn(6)])), "huge-declared-string"
 	case 11:
 		ext := make([]byte, []int{0, 1, 4, 16, 100}[r.Intn(5)])
 		r.Read(ext)
@@ -525,10 +526,16 @@ func fuzzChild() {
 			body, kind := genBody(r)
 			cur.Store(body)
 			run.CaseStart(id + ":http:" + kind + ":" + fmt.Sprintf("%x", trunc(body, 200)))
+			var m0, m1 runtime.MemStats
+			runtime.ReadMemStats(&m0)
 			ctx, cancel := context.WithTimeout(context.Background(), 10*time.Second)
 			resp, err := htr.Announce(ctx, req)
 			cancel()
+			runtime.ReadMemStats(&m1)
 			run.Eval(1)
+			if d := m1.TotalAlloc - m0.TotalAlloc; d > 128<<20 {
+				run.Violation("http-reply-allocation:"+kind, fmt.Sprintf("fuzz %d (%s): handling a %d-byte tracker reply allocated %d MiB; body %q", k, kind, len(body), d>>20, trunc(body, 200)), nil)
+			}
 			if err == nil {
 				if why := checkPeers(resp); why != "" {
 					run.Violation("http-reply-malformed-peer:"+kind, fmt.Sprintf("fuzz %d (%s): Announce returned success with %s; body %q", k, kind, why, trunc(body, 300)), map[string]any{"body_hex": fmt.Sprintf("%x", trunc(body, 2000))})
